@@ -75,7 +75,8 @@ func ZZ_C15_Resolve() {
 		}
 		tasks.Set(name, t)
 	}
-	req := zz.Str("request", zz.Param("reqlen", 4), zzNameAlphabet)
+	// (a request may also hold a newline: '*' stands for any text)
+	req := zz.Str("request", zz.Param("reqlen", 4), zzNameAlphabet+"\n")
 	e := &Executor{Taskfile: &ast.Taskfile{Tasks: tasks}}
 	if zz.Bool("fuzzy") {
 		e.fuzzyModel = fuzzy.NewModel()
@@ -325,6 +326,44 @@ func ZZ_C15_MatchVerbatim() {
 		ok = found && isList && len(ws) == 1 && ws[0] == suffix
 	}
 	zz.Assert(ok, "MATCH-holds-the-matched-text-verbatim")
+	if zz.Twin() {
+		zz.Assert(false, "twin")
+	}
+	zz.Reach("end")
+}
+
+// ZZ_C08_RootReference: a task of an included Taskfile refers to a task of the root Taskfile
+// with a leading ':' (in a command and in a dependency); whether the include is namespaced or
+// flattened, looking the reference up as the Executor does when it makes the call finds the
+// root's task (and a reference without the ':' finds the included file's own task).
+func ZZ_C08_RootReference() {
+	rootHello := &ast.Task{Task: "hello", Location: &ast.Location{Taskfile: "/root/Taskfile.yml"}}
+	root := ast.NewTasks()
+	root.Set("hello", rootHello)
+	inc := ast.NewTasks()
+	inc.Set("go", &ast.Task{Task: "go", Location: &ast.Location{Taskfile: "/a/Taskfile.yml"},
+		Cmds: []*ast.Cmd{{Task: ":hello"}, {Task: "own"}}, Deps: []*ast.Dep{{Task: ":hello"}}})
+	incOwn := &ast.Task{Task: "own", Location: &ast.Location{Taskfile: "/a/Taskfile.yml"}}
+	inc.Set("own", incOwn)
+	flatten := zz.Bool("include_is_flattened")
+	err := root.Merge(inc, &ast.Include{Namespace: "a", Flatten: flatten}, nil)
+	zz.Assert(err == nil, "merge-must-not-fail")
+	key := "a:go"
+	if flatten {
+		key = "go"
+	}
+	t, ok := root.Get(key)
+	zz.Assert(ok, "included-task-callable")
+	if !ok {
+		return
+	}
+	e := &Executor{Taskfile: &ast.Taskfile{Tasks: root}}
+	for _, ref := range []string{t.Cmds[0].Task, t.Deps[0].Task} {
+		got, err := e.GetTask(&Call{Task: ref})
+		zz.Assert(err == nil && got != nil && got.Location.Taskfile == "/root/Taskfile.yml" && got.Task == "hello", "colon-reference-names-the-root-task")
+	}
+	got, err := e.GetTask(&Call{Task: t.Cmds[1].Task})
+	zz.Assert(err == nil && got != nil && got.Location.Taskfile == "/a/Taskfile.yml", "plain-reference-names-the-own-files-task")
 	if zz.Twin() {
 		zz.Assert(false, "twin")
 	}
